@@ -10,6 +10,8 @@ R2  refusals present: differing field sets and mixed identifier use raise (their
 R3  locate arithmetic: bisect_left(size_index, index + 1) (or the equivalent
     bisect_right(size_index, index)), bound check before use, local index
     relative to the located file.
+R6  the merged index is built under exactly the condition "every input is
+    identified" (the reader of a merged store consults nothing else).
 R4  the metadata records, per input, the file name under which it is moved
     and the order of `stores` is that of the loop.
 """
@@ -228,6 +230,17 @@ def run(ctx):
            'group of the located file' if ok else 'reads from a group of a different file',
            line=(grp[0].lineno if grp else ld.node.lineno))
     # R5 flight-identifier lookup across parts: the merged index offsets (shared with C08-R3)
+    # R6: writer/reader agreement on the merged index: it is built exactly when the inputs are identified
+    call_sites = [c for c in calls_in(mg.node) if call_name(c).endswith('_create_merged_store_index')]
+    ctx.floor('C09-R6', len(call_sites), 1, 'merged-index creation sites in merge')
+    for c in call_sites:
+        gs = [(norm(t), pol) for t, pol, _ in guards_of(stmt_of(c))]
+        ok = gs == [('indexable', True)]
+        ctx.ob('C09-R6', mg, f'merged index built under {gs}', ok,
+               'built for every identified merge (the reader looks for the merged index only)' if ok else
+               ('the merged index is not built for every merge of identified stores: the reader of a merged store only '
+                'consults the merged index file, so such a store opens as not indexable and look-ups by flight identifier '
+                'fail although every input had identifiers'), line=c.lineno)
     from .c08 import rule_offsets
     rule_offsets(ctx, m, rule='C09-R5')
     ctx.assumptions += ['netCDF4 resolves a negative record index against the (static) dimension length of a read-only file']
